@@ -89,9 +89,51 @@ def stmt_failure(c, upsample=False):
     return None
 
 
+def gen_starts(rng, c):
+    '''several distinct start positions inside the capture range of the one disk, windows inside the frame'''
+    pattern = cl.pattern_from_desc(c['desc'])
+    cs = pattern.get_crop_size()
+    cap = max(0, cs - int(math.ceil(c['radius'])) - 1)
+    fy, fx = c['shape']
+    cand = [(c['p'][0] + dy, c['p'][1] + dx) for dy in range(-cap, cap + 1) for dx in range(-cap, cap + 1)]
+    cand = [q for q in cand if cs <= q[0] <= fy - cs and cs <= q[1] <= fx - cs]
+    first = (c['p'][0] + c['off'][0], c['p'][1] + c['off'][1])
+    rest = [q for q in cand if q != first]
+    k = min(len(rest), int(rng.integers(1, 9)))
+    return [first] + [rest[i] for i in rng.permutation(len(rest))[:k]]
+
+
+def multi_failure(c, upsample, starts, nb):
+    '''the same disk looked for from several start positions in ONE call of the crop-based kernel with nb <= len(starts) crop
+    buffers (several blocks): every start must report the disk centre'''
+    from libertem_blobfinder.base import correlation as bc
+    pattern = cl.pattern_from_desc(c['desc'])
+    cs = pattern.get_crop_size()
+    frame = render(c).astype(np.float32)
+    peaks = np.array(starts, dtype=np.int32)
+    n = len(peaks)
+    cen, ref = np.zeros((n, 2), dtype=np.int16), np.zeros((n, 2), dtype=np.float32)
+    hei, ele = np.zeros(n, dtype=np.float32), np.zeros(n, dtype=np.float32)
+    try:
+        bc.process_frame_fast(template=pattern.get_template(sig_shape=(2 * cs, 2 * cs)), crop_size=cs, frame=frame, peaks=peaks, out_centers=cen, out_refineds=ref,
+                              out_heights=hei, out_elevations=ele, crop_bufs=np.zeros((nb, 2 * cs, 2 * cs), dtype=np.float32), upsample=upsample)
+    except Exception as e:  # noqa
+        return 'process_frame_fast raised %s: %s' % (type(e).__name__, e)
+    bound = 0.01 if not upsample else 1.5 / (20 if upsample is True else upsample)
+    for k in range(n):
+        err = float(np.abs(ref[k].astype(np.float64) - np.array(c['p'])).max())
+        if cen[k].tolist() != list(c['p']) or err > bound:
+            return 'process_frame_fast with %d start positions in %d crop buffers: disk centred on pixel %s (radius %s, frame %s, %s, upsample=%s): start %s gives centre %s refined %s (%.4f px off, bound %.4f)' % (
+                n, nb, c['p'], c['radius'], c['shape'], c['desc']['kind'], upsample, peaks[k].tolist(), cen[k].tolist(), ref[k].tolist(), err, bound)
+    return None
+
+
 def replay(body):
     a = body['args']
-    fail = stmt_failure(a['case'], a.get('upsample', False))
+    if 'starts' in a:
+        fail = multi_failure(a['case'], a.get('upsample', False), a['starts'], a['nb'])
+    else:
+        fail = stmt_failure(a['case'], a.get('upsample', False))
     print(json.dumps({'failure_now': fail}, indent=1))
     if fail:
         print('VIOLATION property=C01 replay=(given)')
@@ -112,7 +154,7 @@ def classify(fail, c):
 def run(ctx):
     rng = ctx.rng
     ctx.check_theorems()
-    ctx.check_generated(['padcrop', 'eval'])
+    ctx.check_generated(['padcrop', 'eval', 'kcalls'])
 
     # (K) the model pipeline on sharp flat disks (integer data): argmax = disk centre, centre of mass EXACTLY symmetric, and the
     #     hypotheses of the theorems checked by computation on the implementation's actual mask
@@ -205,6 +247,19 @@ def run(ctx):
             ctx.violation('input', fail, {'kind': 'input', 'call': 'process_frames_fast/full', 'args': {'case': c, 'upsample': ups}, 'failure': fail}, signature=classify(fail, c))
             if len(ctx.violations) > nv:
                 break
+        if n % 3 == 0:
+            starts = gen_starts(rng, c)
+            nb = int(rng.integers(1, len(starts) + 1))
+            ups2 = [False, True, 2, 4, 10][int(rng.integers(0, 5))]
+            fail = multi_failure(c, ups2, starts, nb)
+            ctx.count(1, key=('multi', json.dumps(c['desc'])[:200], c['shape'], c['p'], starts, nb, ups2))
+            ctx.hist('multi-start blocks', -(-len(starts) // nb))
+            if fail:
+                nv = len(ctx.violations)
+                ctx.violation('input', fail, {'kind': 'input', 'call': 'base.correlation.process_frame_fast', 'args': {'case': c, 'upsample': ups2, 'starts': starts, 'nb': nb}, 'failure': fail},
+                              signature=classify(fail, c))
+                if len(ctx.violations) > nv:
+                    break
     return ctx.finish(
         LEVEL,
         explanation='Theorems: FFT product = cross-correlation for centro-symmetric masks of any parity; radial masks are centro-symmetric and user templates keep their centre; map of '
@@ -213,4 +268,4 @@ def run(ctx):
                     'model giving argmax = centre and sy = r s exactly; the theorems\' hypotheses (csymb, bathtub/sign) evaluated in Coq on the implementation\'s actual masks.',
         rule='(S) 5 pattern classes (user templates: antialiased disks of odd/even/non-square shape centred on shape//2), radii 2..14 fractional, search 1.25..2.5 radius, frame '
              'shapes of all parities up to 69, disk position anywhere the window fits, start offsets up to the capture range, amplitudes 1..400, backgrounds, sharp and antialiased '
-             'disks, upsample in {False, True, 2, 5, 10, 50}; (K) the same with crop size <= 5 and frames <= 11.')
+             'disks, upsample in {False, True, 2, 5, 10, 50}; every third case additionally from 2..9 start positions in one call with 1..n crop buffers (several blocks); (K) the same with crop size <= 5 and frames <= 11.')
